@@ -98,7 +98,8 @@ ASSUME Gen = "C24" =>
        extensions, foreign / spliced / zeroed tickets) with and without a rotation;
    (c) every single byte position x 3 bit patterns of the ticket (the statement's "all single-byte
        ... mutations");
-   (d) server configuration changes (version no longer negotiated, suite no longer enabled). *)
+   (d) configuration changes (version no longer negotiated, suite no longer enabled by the server,
+       suite no longer offered by the client although it still presents the ticket). *)
 H31 == IF Tier = "quick" THEN 2 ELSE 3
 OpAt(name, pos) == [op |-> name, k |-> IF name = "rot" THEN 10 + pos ELSE 0]
 RECURSIVE Hists(_)
@@ -128,7 +129,7 @@ Cases31 == Number(
   \cup { Mk31(12, "E", <<1>>, <<>>, m, "none") : m \in FlipAts(TLen12) }
   \cup { Mk31(13, "E", <<1>>, <<>>, m, "none") : m \in FlipAts(TLen13) }
   \cup { Mk31(v, key, <<1>>, <<>>, NoMut, "server_max_lower") : v \in {12, 13}, key \in {"P", "R"} }
-  \cup { Mk31(12, key, <<1>>, <<>>, NoMut, "server_drops_suite") : key \in {"E", "R", "P"} } )
+  \cup { Mk31(12, key, <<1>>, <<>>, NoMut, ch) : key \in {"R", "P"}, ch \in {"server_drops_suite", "client_drops_suite"} } )
 
 ASSUME Gen = "C31" =>
          /\ ndJsonSerialize("c31_cases.ndjson", Cases31)
@@ -220,7 +221,11 @@ Cases32 == Number(
   { Mk32(co, d, i, f, Seed) : co \in Combos32, d \in {0, 1}, i \in 0..MaxIdx32, f \in Faults32 }
   \cup { Mk32(co, d, 0, [kind |-> "stream", pos |-> k % 3, mask |-> k % 4, sub |-> x], Seed * 1000 + k) :
            co \in Combos32, d \in {0, 1}, x \in {"random", "header-random", "transcript"},
-           k \in 1..(IF Tier = "quick" THEN 6 ELSE 40) } )
+           k \in 1..(IF Tier = "quick" THEN 6 ELSE 40) }
+  \* a client configured with an external ClientHello that lacks supported_versions (an older
+  \* stack's hello), with and without a session cache, against an honest server
+  \cup { Mk32(co, 1, 0, [kind |-> "exthello", pos |-> 0, mask |-> 0, sub |-> x], Seed) :
+           co \in Combos32, x \in {"with-cache", "no-cache"} } )
 ASSUME Gen = "C32" =>
          /\ ndJsonSerialize("c32_cases.ndjson", Cases32)
          /\ PrintT(<<"GENERATED", Len(Cases32), Cardinality({i \in 1..Len(Cases32) : Cases32[i].kind = "stream"})>>)
